@@ -16,6 +16,7 @@
 //!        → `r=<ref>,… copies=<n> q=<ref>,… | <cell>`      (n real threads, yield points armed)
 //!   casbit race mark|immix|los|log|pin|unpin <n> <seed> <env> <arg> <nursery>
 //!        → `t=<#true> f=<#false> | <cell>`
+//!   fwd mrace … | casbit mrace …      (races on a GROUP of objects sharing one metadata byte: `group.rs`)
 //! `<ref>`: `orig` (the object itself) | `new:<k>` (copy target k = NEW + 64k) | `raw:<hex>`.
 //!
 //! `trace_copy` is `CopySpace::trace_object` from `attempt_to_forward` on (copyspace.rs), `trace_immix`
@@ -45,17 +46,17 @@ use std::sync::{Arc, Barrier, Mutex, Once};
 pub const WIN: usize = 0x1e0_0000_0000;
 const WIN_BYTES: usize = 1 << 22;
 const OBJ0: usize = WIN + 0x1040;
-const NEW: usize = WIN + 0x10000;
+pub(super) const NEW: usize = WIN + 0x10000;
 
 #[derive(Clone, Copy)]
-struct St {
-    l: u8,
-    slot: usize,
-    ready: bool,
+pub(super) struct St {
+    pub(super) l: u8,
+    pub(super) slot: usize,
+    pub(super) ready: bool,
 }
 
 thread_local! {
-    static ST: RefCell<St> = const { RefCell::new(St { l: 0, slot: 0, ready: false }) };
+    pub(super) static ST: RefCell<St> = const { RefCell::new(St { l: 0, slot: 0, ready: false }) };
 }
 
 macro_rules! with_vm {
@@ -81,11 +82,11 @@ macro_rules! with_vm {
     };
 }
 
-fn addr(a: usize) -> Address {
+pub(super) fn addr(a: usize) -> Address {
     unsafe { Address::from_usize(a) }
 }
 
-fn oref(a: usize) -> ObjectReference {
+pub(super) fn oref(a: usize) -> ObjectReference {
     unsafe { ObjectReference::from_raw_address_unchecked(addr(a)) }
 }
 
@@ -97,7 +98,7 @@ fn side(m: MetadataSpec) -> SideMetadataSpec {
 }
 
 /// The five side specs of layout 0 (= VerifVM's): fwd bits, mark, log, pin, los.
-fn side_specs() -> [SideMetadataSpec; 5] {
+pub(super) fn side_specs() -> [SideMetadataSpec; 5] {
     type V = CVm<0>;
     [
         side(*<V as VMBinding>::VMObjectModel::LOCAL_FORWARDING_BITS_SPEC),
@@ -110,7 +111,7 @@ fn side_specs() -> [SideMetadataSpec; 5] {
 
 static INIT: Once = Once::new();
 
-fn init() {
+pub(super) fn init() {
     INIT.call_once(|| {
         crate::ensure_mmtk();
         let p = unsafe {
@@ -134,7 +135,7 @@ fn init() {
     });
 }
 
-fn obj_addr(slot: usize) -> usize {
+pub(super) fn obj_addr(slot: usize) -> usize {
     OBJ0 + 8 * slot
 }
 
@@ -142,16 +143,16 @@ fn meta_byte_addr(i: usize, slot: usize) -> usize {
     hook::meta_address(&side_specs()[i], addr(obj_addr(slot))).0.as_usize()
 }
 
-fn rd8(a: usize) -> u8 {
+pub(super) fn rd8(a: usize) -> u8 {
     unsafe { (*(a as *const std::sync::atomic::AtomicU8)).load(Ordering::SeqCst) }
 }
-fn wr8(a: usize, v: u8) {
+pub(super) fn wr8(a: usize, v: u8) {
     unsafe { (*(a as *const std::sync::atomic::AtomicU8)).store(v, Ordering::SeqCst) }
 }
-fn rd64(a: usize) -> usize {
+pub(super) fn rd64(a: usize) -> usize {
     unsafe { (*(a as *const std::sync::atomic::AtomicUsize)).load(Ordering::SeqCst) }
 }
-fn wr64(a: usize, v: usize) {
+pub(super) fn wr64(a: usize, v: usize) {
     unsafe { (*(a as *const std::sync::atomic::AtomicUsize)).store(v, Ordering::SeqCst) }
 }
 
@@ -175,12 +176,12 @@ fn fmt_ref(slot: usize, o: ObjectReference) -> String {
     }
 }
 
-fn new_addr(k: usize) -> usize {
+pub(super) fn new_addr(k: usize) -> usize {
     NEW + 64 * k
 }
 
 /// `CopySpace::trace_object` from `attempt_to_forward` on.
-fn trace_copy<VM: VMBinding>(object: ObjectReference, queue: &mut Vec<ObjectReference>) -> ObjectReference {
+pub(super) fn trace_copy<VM: VMBinding>(object: ObjectReference, queue: &mut Vec<ObjectReference>) -> ObjectReference {
     let forwarding_status = hf::attempt_to_forward::<VM>(object);
     if hf::state_is_forwarded_or_being_forwarded(forwarding_status) {
         hf::spin_and_get_forwarded_object::<VM>(object, forwarding_status)
@@ -193,7 +194,7 @@ fn trace_copy<VM: VMBinding>(object: ObjectReference, queue: &mut Vec<ObjectRefe
 }
 
 /// `ImmixSpace::trace_object_with_opportunistic_copy` from `attempt_to_forward` on.
-fn trace_immix<VM: VMBinding>(object: ObjectReference, decline: bool, queue: &mut Vec<ObjectReference>) -> ObjectReference {
+pub(super) fn trace_immix<VM: VMBinding>(object: ObjectReference, decline: bool, queue: &mut Vec<ObjectReference>) -> ObjectReference {
     let forwarding_status = hf::attempt_to_forward::<VM>(object);
     if hf::state_is_forwarded_or_being_forwarded(forwarding_status) {
         hf::spin_and_get_forwarded_object::<VM>(object, forwarding_status)
@@ -252,6 +253,9 @@ fn with_cell(f: impl FnOnce(St) -> String) -> String {
 }
 
 pub fn run_fwd(args: &[&str]) -> String {
+    if args[0] == "mrace" {
+        return super::group::mrace_fwd(args);
+    }
     with_cell(|st| {
         let o = oref(obj_addr(st.slot));
         let slot = st.slot;
@@ -360,7 +364,7 @@ fn race_fwd<VM: VMBinding>(st: St, args: &[&str]) -> String {
 }
 
 /// One call of the named helper on `o` (VerifVM-typed space methods only on layout 0).
-fn cas_call<VM: VMBinding>(l: u8, kind: &str, o: ObjectReference, arg: usize) -> Option<bool> {
+pub(super) fn cas_call<VM: VMBinding>(l: u8, kind: &str, o: ObjectReference, arg: usize) -> Option<bool> {
     Some(match kind {
         "mark" => hc::mark_state_test_and_mark::<VM>(arg, o),
         "log" => hc::log_object::<VM>(o),
@@ -373,6 +377,9 @@ fn cas_call<VM: VMBinding>(l: u8, kind: &str, o: ObjectReference, arg: usize) ->
 }
 
 pub fn run_casbit(args: &[&str]) -> String {
+    if args[0] == "mrace" {
+        return super::group::mrace_cas(args);
+    }
     with_cell(|st| {
         let o = oref(obj_addr(st.slot));
         with_vm!(st.l, VM, {
